@@ -1,6 +1,6 @@
 TITLE = "metrize bakes tempi into durations, once, and leaves neutral tempo behind"
 IMPORTS = ["From Coquelicot Require Import Coquelicot.", "From Coq Require Import ZArith List Bool Reals.",
-           "From MV Require Import Base.Res Model.EventTree Model.TreeOps Model.Num Model.Envelope Model.Convert Proofs.RNum Proofs.Interp Proofs.Integral Proofs.ConvertCache Proofs.ConvertP.",
+           "From MV Require Import Base.Res Model.EventTree Model.TreeOps Model.Num Model.Envelope Model.Convert Model.MetrizeSteps Proofs.RNum Proofs.Interp Proofs.Integral Proofs.ConvertCache Proofs.ConvertP Proofs.MetrizeStepsP.",
            "Import ListNotations."]
 ENTRIES = [
  ("C13_constant_tempi_multiply", "metrize_constant", "constant tempi multiply: a leaf of length d under tempi b1..bk on its path, its own included, lasts d * (60/b1) * ... * (60/bk)"),
@@ -8,9 +8,17 @@ ENTRIES = [
  ("C13_single_tempo_node_is_conversion", "metrize_single_node", "for a single tempo-carrying node the result equals tempo conversion with that node's tempo"),
  ("C13_single_tempo_node_integrals", "metrize_single_node_integrals", ""),
  ("C13_neutral_event_unchanged", "metrize_neutral_identity", "an event whose nodes all carry the neutral tempo (60) is not changed: metrizing again changes nothing"),
- ("C13_nested_trajectories_outside_model", "metrize_nested_traj_rejected", "model boundary: a trajectory below a trajectory is not modelled (those cases are decided by the implementation-side oracle only)"),
+ ("C13_nested_trajectories_outside_model", "metrize_nested_traj_rejected", "boundary of the one-trajectory model: a trajectory below a trajectory is rejected there ..."),
+ ("C13_step_model_is_conservative", "metrize2_conservative", "... and decided by the step model (metrize2 = the one-trajectory model wherever that decides, else the step model), which changes no answer of the former"),
+ ("C13_step_model_only_adds", "metrize2_only_adds", ""),
+ ("C13_step_model_agrees_on_constants", "metrize_steps_constant", "on trees with constant tempi only, the step model gives the same products"),
+ ("C13_locally_constant_tempi_multiply", "integ_steps_one_piece", "the clause the step model adds: a stretch of beats inside which no tempo of any level changes lasts its length times the product of 60 / bpm of all levels (prod_at = one factor per trajectory on the path)"),
+ ("C13_stretches_add_up", "integ_steps_first_piece", "and a leaf lasts the first stretch plus the rest"),
+ ("C13_one_factor_per_level", "prod_at_cons", ""),
+ ("C13_curved_trajectories_outside_step_model", "metrize_steps_rejects_curves", "a curved trajectory below a trajectory stays undecided (model and property alike)"),
+ ("C13_nested_steps_example", "nested_steps_example", "2 beats under 240 | 120 bpm (change after 1 beat) and 60 | 30 bpm (change after 1.5 beats) last 1 second"),
 ]
-EXTRA = """Print leaf_products. Print path_factor. Print single_traj.
+EXTRA = """Print leaf_products. Print path_factor. Print single_traj. Print metrize2. Print integ_steps. Print next_bp. Print prod_at. Print step_value. Print is_step.
 (* "Afterwards every node carries the neutral tempo", "in-place form = converter form" and "the converter form leaves
    its input unchanged" are statements about object state; they are decided on the implementation by the oracle of
    every run (flags not-neutral-after / inplace-differs / not-idempotent / input-changed). *)
